@@ -569,7 +569,8 @@ func (e *engine) runScenario(sc Scenario) (res result) {
 			}
 		case st.DirInTheWay || faulty:
 			res.Class = "relaxed"
-			res.Problems = judgeRelaxed(before, after, owned, "work", ref.Files)
+			T, _ := resolve(before, targetRel, 0)
+			res.Problems = judgeRelaxed(before, after, owned, "work", ref.Files, T)
 		default:
 			res.Class = "exact"
 			res.Problems = judgeExact(before, expected, after, owned)
